@@ -136,6 +136,7 @@ func runC18(w *World, r *Report, tier string) {
 		if f := lookupByName(w, it.fn); f != nil {
 			ruleMapOrder(w, r, f, 0)
 		}
+		ruleElementwise(w, r, it.fn, 0)
 		ruleProjection(w, r, it.fn, it.fwd)
 	}
 	r.Assume = append(r.Assume, "wgs84.SafeTransform returns an error for a nil (unknown) CRS, wgs84.Transform does not (read from the dependency's source)")
